@@ -35,7 +35,7 @@ STUB = ["numpy.random.* : homodyne outcomes dictated by a per-(mode, k) tape so 
 ASSUMPTIONS = [
     "differential oracle: original vs optimised on the same backend (no gate physics is trusted)",
     "ThermalLossChannel merges are exercised on the bosonic backend and on one-mode Gaussian registers only (the Gaussian backend's thermal loss touches spectator modes - C05's territory - so merely reordering commuting commands changes its result)",
-    "Fock runs: cutoff 8, small parameters, tolerance 1e-3 (merging changes where truncation happens)",
+    "Fock runs: cutoff 8, small parameters, tolerance 1e-3 (merging changes where truncation happens); Gaussian/bosonic: 1e-8, 1e-7 when the program measures (the homodyne update amplifies rounding by 1/eps^2), growing with parameter magnitudes above 100",
 ]
 
 
@@ -230,6 +230,15 @@ def execute(script, w):
     backend = script["backend"]
     feats = ["backend=" + backend]
     tol = 1e-3 if backend == "fock" else 1e-8  # merging moves where the Fock truncation bites (squeezing-like gates at cutoff 8)
+    # displacements of magnitude ~5000 that cancel up to ~0.02: the two evaluation orders round at 1e-16 * 5000 * (a few operations), so the
+    # allowance grows with the largest parameter (the changes this is meant to see leave differences of 1e-2)
+    if backend != "fock" and any(o_["op"] == "MeasureHomodyne" for o_ in script["ops"]):
+        # the homodyne update divides by eps^2 = 4e-8: rounding differences between two orders of commuting operations are amplified to ~1e-8
+        # (seen: 1.02e-8 after three embeddings and a measurement); breaking changes leave 1e-3 and more
+        tol = 1e-7
+    big_ = max([abs(o_["p"][0]) for o_ in script["ops"] if o_.get("p") and isinstance(o_["p"][0], (int, float))] + [1.0])
+    if big_ > 100:
+        tol = max(tol, 2e-9 * big_)
     fallback = SeededOutcomes(1, w)
     tscript = dict(script, backend=backend)
     tape = Tape(tscript, w, fallback)
